@@ -176,6 +176,11 @@ inductive Op where
   `ConfigManager.create_or_update_environment` only when one of the two stored fields changes;
   the current environment and the selected profile are not touched -/
   | probe (ra : Bool) (minVer : Option String)
+  /-- `AuthService.refresh_to_db(profile_id, DeviceOIDC(user_id, …token…))` (what the token-refresh
+  middleware of a client calls, possibly long after the command started): `get_profile_by_id` —
+  in *any* environment — then `update_profile` with the new `device_oidc`; nothing when the id
+  is gone.  `pid` is the creation counter standing for the uuid. -/
+  | refresh (pid : Nat) (uid tok : String)
 deriving DecidableEq, Repr
 
 inductive Res where
@@ -252,6 +257,11 @@ def step (c : Cfg) (s : State) : Op → State × Res
   | .probe ra mv =>
     let e := currentEnvironment c s
     if e.requiresAuth = ra ∧ e.minVer = mv then (s, .ok) else (upsertEnv s ⟨e.url, ra, mv⟩, .ok)
+  | .refresh pid uid tok =>
+    match s.profiles.find? (fun p => decide (p.pid = pid)) with
+    | none => (s, .ok)
+    | some ex =>
+      ({ s with profiles := s.profiles.map (fun p => if p.pid = ex.pid then { p with oidc := some ⟨uid, tok⟩ } else p) }, .ok)
 
 def run (c : Cfg) (s : State) : List Op → State
   | [] => s
